@@ -1,9 +1,10 @@
 CONSTANTS
   ProgOf <- FamProgOf
-  MaxSteps = 20000
+  MaxSteps = 200000
   CtxDepth = 3
   HistLen = 6
   EmitOn = TRUE
+  Stress = TRUE
 INIT Init
 NEXT Next
 INVARIANTS TerminalIsClassified ErrorHasCause DoneIsClean ScopesWellFormed HeapWellFormed CallFramesConsistent LoopsEnd EmitInv
